@@ -437,3 +437,32 @@ fn verif_native_watch_cli() {
     let _ = std::fs::remove_dir_all(&dir);
     verif_out(&format!("VERIF-NATIVE name={} evaluated={} distinct={}", name, evaluated, evaluated));
 }
+
+/// C15 at the process level (what a wrongly accepted trap does is console I/O, invisible in the machine state): `eval` of a
+/// trap mnemonic followed by surplus operands is refused — nothing is printed, no input byte is consumed, R0 is untouched —
+/// for 12 texts; observed as the exact program output of `move r0 x0041; eval <text>; eval putn; exit` with stdin "Q"
+#[test]
+fn verif_native_eval_refused_cli() {
+    let name = "verif_native_eval_refused_cli";
+    if std::env::var("VERIF_LACE_BIN").is_err() { verif_out(&format!("VERIF-NATIVE name={} evaluated=0 distinct=0", name)); return; }
+    let dir = std::env::temp_dir().join(format!("lace-verif-evalcli-{}", std::process::id()));
+    std::fs::create_dir_all(&dir).unwrap();
+    let asm = dir.join("e.asm");
+    std::fs::write(&asm, "halt\n").unwrap();
+    let texts = ["out r1", "getc r3", "in r0", "putn #1", "puts r0", "putsp r0", "reg r1", "trap x21 r0", "trap x20 #1", "trap x26 x26", "out out", "OUT R0"];
+    let mut evaluated = 0u64;
+    for t in texts {
+        evaluated += 1;
+        let script = format!("move r0 x0041; eval {}; eval putn; exit", t);
+        let (code, out) = run_lace_stdin(&["debug", "-m", "--command", &script, asm.to_str().unwrap()], b"Q").expect("lace binary");
+        // the program's own output sits between the "Running emitted binary" banner line and the "Completed" banner
+        let after = out.split("emitted binary\n").nth(1).unwrap_or("");
+        let body = after.split("Completed").next().unwrap_or("").to_string();
+        if code != 0 || body.trim() != "65" {
+            verif_out(&format!("VERIF-COUNTEREXAMPLE name={} input=script {:?} stdin \"Q\" detail=exit status {}, program output {:?}; a refused eval prints nothing and leaves R0 = x41, so the output is exactly \"65\"", name, script, code, body.trim()));
+            panic!("violation");
+        }
+    }
+    let _ = std::fs::remove_dir_all(&dir);
+    verif_out(&format!("VERIF-NATIVE name={} evaluated={} distinct={}", name, evaluated, evaluated));
+}
